@@ -295,14 +295,19 @@ Definition remove_front (w : world) (h : id) (is_sub : id -> bool) : bool :=
   | None => false
   end.
 
+Definition copy_container (w : world) (other : id) : bool :=
+  negb (identifiable T w other) && existsb (identifiable T w) (walk (S (N.to_nat (w_next w))) w other).
+
 Definition Known04 (w : world) (o : op) : bool :=
   match o with
   | OpRemove h sub => remove_front w h (N.eqb sub)
   | OpRemoveKind h name => remove_front w h (fun c => nm_of w c =? name)
   | OpCreateSub h name | OpGetOrCreate h name | OpCreateNamed h name _ | OpGetOrCreateNamed h name _ => front w h name None
   | OpCreateSubAt h name pos | OpCreateNamedAt h name _ pos => front w h name (Some pos)
-  | OpCopy h other => front w h (nm_of w other) None
-  | OpCopyAt h other pos => front w h (nm_of w other) (Some pos)
+  (* K04-copy-container: the copied element is not identifiable but contains identifiable elements: only the copied
+     element itself would get a unique name, the nested ones are registered under their old relative paths *)
+  | OpCopy h other => front w h (nm_of w other) None || copy_container w other
+  | OpCopyAt h other pos => front w h (nm_of w other) (Some pos) || copy_container w other
   (* K04-move-short: a SHORT-NAME element is moved away from / into an element *)
   | OpMove h mv => is_short_node w mv || front w h (nm_of w mv) None
   | OpMoveAt h mv pos => is_short_node w mv || front w h (nm_of w mv) (Some pos)
@@ -339,6 +344,7 @@ Module Tiny.
    0 AUTOSAR  1 AR-PACKAGES  2 AR-PACKAGE  3 SHORT-NAME  4 ELEMENTS  5 SYSTEM  6 FIBEX-ELEMENT-REF  7 DESC (mixed)
    8 TT  9 OLD-THING (has a SHORT-NAME only in version bit 1, not in version bit 2)
    10 MIXED-NAMED (mixed content AND named, like ECUC-QUERY-EXPRESSION in the real tables)
+   11 GROUP (a repeatable container that is NOT named and holds identifiable elements, like SDG holding SDG-CAPTION)
    versions: bit 1 and bit 2 (LATEST = 2).  attribute 0 = DEST.  enum items 0 AR-PACKAGE 1 SYSTEM 2 OLD-THING *)
 Definition nAUTOSAR := 0. Definition nPKGS := 1. Definition nPKG := 2. Definition nSHORT := 3. Definition nELEMENTS := 4.
 Definition nSYSTEM := 5. Definition nREF := 6. Definition nDESC := 7. Definition nTT := 8. Definition nOLD := 9.
@@ -349,44 +355,48 @@ Definition mkD (s e : N) (as_ ae : N) (cd mode : N) (rs re : N) : dtype :=
   {| dt_sub_start := s; dt_sub_end := e; dt_sub_ver := s; dt_attr_start := as_; dt_attr_end := ae; dt_attr_ver := 100 + as_;
      dt_cdata := cd; dt_mode := mode; dt_ref_start := rs; dt_ref_end := re |}.
 
-Definition nMIXN := 10.
+Definition nMIXN := 10. Definition nGROUP := 11.
 
 Definition tiny : tables := {|
   T_elements := fun i => match i with
     | 0 => Some (mkE 0 0 1 0) | 1 => Some (mkE 1 1 0 3) | 2 => Some (mkE 2 2 2 0) | 3 => Some (mkE 3 3 1 0)
     | 4 => Some (mkE 4 4 0 3) | 5 => Some (mkE 5 5 2 0) | 6 => Some (mkE 6 6 2 0) | 7 => Some (mkE 7 7 0 0)
-    | 8 => Some (mkE 8 8 2 0) | 9 => Some (mkE 9 9 2 0) | 10 => Some (mkE 10 10 2 0) | _ => None end;
-  n_elements := 11;
+    | 8 => Some (mkE 8 8 2 0) | 9 => Some (mkE 9 9 2 0) | 10 => Some (mkE 10 10 2 0) | 11 => Some (mkE 11 11 2 0)
+    | _ => None end;
+  n_elements := 12;
   (* flat SUBELEMENTS: (0, def) = element *)
   T_subelements := fun i => match i with
     | 0 => Some (0, 1)                                        (* AUTOSAR: AR-PACKAGES *)
     | 1 => Some (0, 2)                                        (* AR-PACKAGES: AR-PACKAGE* *)
     | 2 => Some (0, 3) | 3 => Some (0, 4) | 4 => Some (0, 1)  (* AR-PACKAGE: SHORT-NAME ELEMENTS AR-PACKAGES *)
-    | 5 => Some (0, 5) | 6 => Some (0, 9) | 7 => Some (0, 10) (* ELEMENTS (bag): SYSTEM* OLD-THING* MIXED-NAMED* *)
-    | 8 => Some (0, 3) | 9 => Some (0, 7) | 10 => Some (0, 6) (* SYSTEM: SHORT-NAME DESC FIBEX-ELEMENT-REF* *)
-    | 11 => Some (0, 8) | 12 => Some (0, 6) | 13 => Some (0, 5)  (* DESC (mixed): TT* FIBEX-ELEMENT-REF* SYSTEM* *)
-    | 14 => Some (0, 3) | 15 => Some (0, 6)                   (* OLD-THING: SHORT-NAME(v1 only) FIBEX-ELEMENT-REF* *)
-    | 16 => Some (0, 3) | 17 => Some (0, 8)                   (* MIXED-NAMED (mixed, named): SHORT-NAME TT* *)
+    | 5 => Some (0, 5) | 6 => Some (0, 9) | 7 => Some (0, 10) | 8 => Some (0, 11)
+                                                              (* ELEMENTS (bag): SYSTEM* OLD-THING* MIXED-NAMED* GROUP* *)
+    | 9 => Some (0, 3) | 10 => Some (0, 7) | 11 => Some (0, 6) (* SYSTEM: SHORT-NAME DESC FIBEX-ELEMENT-REF* *)
+    | 12 => Some (0, 8) | 13 => Some (0, 6) | 14 => Some (0, 5)  (* DESC (mixed): TT* FIBEX-ELEMENT-REF* SYSTEM* *)
+    | 15 => Some (0, 3) | 16 => Some (0, 6)                   (* OLD-THING: SHORT-NAME(v1 only) FIBEX-ELEMENT-REF* *)
+    | 17 => Some (0, 3) | 18 => Some (0, 8)                   (* MIXED-NAMED (mixed, named): SHORT-NAME TT* *)
+    | 19 => Some (0, 5)                                       (* GROUP (not named, repeatable): SYSTEM* *)
     | _ => None end;
-  n_subelements := 18;
+  n_subelements := 20;
   T_attributes := fun i => match i with 0 => Some (0, 2, 1) | _ => None end;   (* DEST : enum, required *)
   n_attributes := 1;
-  T_version_info := fun i => if i =? 14 then Some 1 else Some 3;
+  T_version_info := fun i => if i =? 15 then Some 1 else Some 3;
   n_version_info := 200;
   T_datatypes := fun i => match i with
     | 0 => Some (mkD 0 1 0 0 0 MSequence 0 0)
     | 1 => Some (mkD 1 2 0 0 0 MSequence 0 0)
     | 2 => Some (mkD 2 5 0 0 0 MSequence 0 1)
     | 3 => Some (mkD 5 5 0 0 1 MCharacters 0 0)      (* SHORT-NAME: cdata 0 *)
-    | 4 => Some (mkD 5 8 0 0 0 MBag 0 0)
-    | 5 => Some (mkD 8 11 0 0 0 MSequence 1 2)
-    | 6 => Some (mkD 11 11 0 1 2 MCharacters 0 0)    (* reference: cdata 1, attribute DEST *)
-    | 7 => Some (mkD 11 14 0 0 4 MMixed 0 0)         (* DESC: cdata 3 *)
-    | 8 => Some (mkD 14 14 0 0 4 MCharacters 0 0)
-    | 9 => Some (mkD 14 16 0 0 0 MSequence 2 3)
-    | 10 => Some (mkD 16 18 0 0 4 MMixed 3 4)
+    | 4 => Some (mkD 5 9 0 0 0 MBag 0 0)
+    | 5 => Some (mkD 9 12 0 0 0 MSequence 1 2)
+    | 6 => Some (mkD 12 12 0 1 2 MCharacters 0 0)    (* reference: cdata 1, attribute DEST *)
+    | 7 => Some (mkD 12 15 0 0 4 MMixed 0 0)         (* DESC: cdata 3 *)
+    | 8 => Some (mkD 15 15 0 0 4 MCharacters 0 0)
+    | 9 => Some (mkD 15 17 0 0 0 MSequence 2 3)
+    | 10 => Some (mkD 17 19 0 0 4 MMixed 3 4)
+    | 11 => Some (mkD 19 20 0 0 0 MSequence 0 0)
     | _ => None end;
-  n_datatypes := 11;
+  n_datatypes := 12;
   T_ref_items := fun i => match i with 0 => Some 0 | 1 => Some 1 | 2 => Some 2 | 3 => Some 3 | _ => None end;
   n_ref_items := 4;
   T_cdata := fun i => match i with
@@ -408,7 +418,7 @@ Definition tiny_check_fn (fn : N) (s : list N) : res bool :=
 
 Definition tiny_el : nametab :=
   {| nt_strtab := [BS "AUTOSAR"; BS "AR-PACKAGES"; BS "AR-PACKAGE"; BS "SHORT-NAME"; BS "ELEMENTS"; BS "SYSTEM";
-                   BS "FIBEX-ELEMENT-REF"; BS "DESC"; BS "TT"; BS "OLD-THING"; BS "MIXED-NAMED"];
+                   BS "FIBEX-ELEMENT-REF"; BS "DESC"; BS "TT"; BS "OLD-THING"; BS "MIXED-NAMED"; BS "GROUP"];
      nt_disp := [(0, 0)]; nt_mdisp := 1; nt_mtab := 1 |}.
 (* every from_bytes on this table is Err, so Element::set_reference_target takes the reference_dest_value route *)
 Definition tiny_en : nametab := {| nt_strtab := [BS "~"]; nt_disp := [(0, 0)]; nt_mdisp := 1; nt_mtab := 1 |}.
